@@ -268,8 +268,9 @@ BadIdx   == { i \in 1 .. Len(IdxCases) : IdxWhy(IdxCases[i]) # "" }
 Verdict == JsonSerialize(IOEnv.CP_VERDICT,
              [ncalls   |-> Len(CallCases),
               nidx     |-> Len(IdxCases),
-              negative |-> Cardinality({ i \in 1 .. Len(CallCases) :
-                                          IF CallWhy(CallCases[i]) = "" THEN CallCases[i].i32 < 0 ELSE FALSE }),
+              negative |-> Cardinality({ i \in 1 .. Len(CallCases) :       \* vacuity: words with bit 31 set were judged
+                                          IF CallWhy(CallCases[i]) # "not-in-universe"
+                                          THEN Signed(Word(MkCall(CallCases[i].ph, CallCases[i].a))) < 0 ELSE FALSE }),
               badcalls |-> SetToSeq({ [i |-> i, why |-> CallWhy(CallCases[i])] : i \in BadCalls }),
               badidx   |-> SetToSeq({ [i |-> i, why |-> IdxWhy(IdxCases[i])] : i \in BadIdx })])
 =============================================================================
